@@ -269,6 +269,77 @@ func runC16(h *hz.H) {
 			}
 		}
 	}
+	// (5) histories: the descriptor used by the file-registry path must be the one of the resolver given to
+	// THIS call, whatever earlier calls resolved the same name to
+	{
+		mkFiles := func(kind descriptorpb.FieldDescriptorProto_Type) (*protoregistry.Files, protoreflect.MessageDescriptor) {
+			fdp := &descriptorpb.FileDescriptorProto{Name: proto.String("verif/twin.proto"), Package: proto.String("verif.twin"), Syntax: proto.String("proto3"),
+				MessageType: []*descriptorpb.DescriptorProto{{Name: proto.String("M"), Field: []*descriptorpb.FieldDescriptorProto{
+					{Name: proto.String("n"), Number: proto.Int32(1), Type: kind.Enum(), Label: descriptorpb.FieldDescriptorProto_LABEL_OPTIONAL.Enum()}}}}}
+			fd, err := protodesc.NewFile(fdp, nil)
+			if err != nil {
+				panic(err)
+			}
+			fs := &protoregistry.Files{}
+			fs.RegisterFile(fd)
+			return fs, fd.Messages().Get(0)
+		}
+		type reg struct {
+			name  string
+			files *protoregistry.Files
+			md    protoreflect.MessageDescriptor
+		}
+		var regs []reg
+		for _, k := range []struct {
+			n string
+			t descriptorpb.FieldDescriptorProto_Type
+		}{{"int32", descriptorpb.FieldDescriptorProto_TYPE_INT32}, {"sint32", descriptorpb.FieldDescriptorProto_TYPE_SINT32}, {"string", descriptorpb.FieldDescriptorProto_TYPE_STRING}} {
+			fs, md := mkFiles(k.t)
+			regs = append(regs, reg{k.n, fs, md})
+		}
+		payloads := map[string][]byte{"varint 5": {0x08, 0x05}, "bytes": {0x0a, 0x01, 0x78}}
+		// every history of length <= 3 over the three registries
+		var hist func(prefix []int)
+		hist = func(prefix []int) {
+			if len(prefix) > 0 {
+				for pn, pl := range payloads {
+					var last proto.Message
+					var lerr error
+					pv := hz.Catch(func() {
+						for _, ri := range prefix {
+							last, lerr = anyutil.Unpack(&anypb.Any{TypeUrl: "/verif.twin.M", Value: pl}, regs[ri].files, &protoregistry.Types{})
+						}
+					})
+					r := regs[prefix[len(prefix)-1]]
+					var names []string
+					for _, ri := range prefix {
+						names = append(names, regs[ri].name)
+					}
+					c := c16case{Kind: "unpack-history", URL: "/verif.twin.M", ValueHex: fmt.Sprintf("%x", pl), FileRes: strings.Join(names, " then ")}
+					h.Eval(true, hz.Hash("C16h", pn, fmt.Sprint(prefix)))
+					want := dynamicpb.NewMessage(r.md)
+					werr := proto.Unmarshal(pl, want)
+					if pv != nil {
+						h.ViolateMin("C16/unpack-history/panic", fmt.Sprintf("Unpack history %v panicked: %v", names, pv), c, len(prefix))
+						continue
+					}
+					if (lerr == nil) != (werr == nil) {
+						h.ViolateMin("C16/unpack-history/error", fmt.Sprintf("Unpack of payload %s through file registries %v: err=%v, decoding with the last registry's descriptor gives err=%v", pn, names, lerr, werr), c, len(prefix))
+						continue
+					}
+					if lerr == nil && (last.ProtoReflect().Descriptor() != r.md || enum.Canon(last.ProtoReflect(), false) != enum.Canon(want, false)) {
+						h.ViolateMin("C16/unpack-history/stale-descriptor", fmt.Sprintf("Unpack through file registries %v (same full name, different schemas): the last call returned %s decoded with a descriptor that is not the one its own resolver holds (want %s)", names, enum.Canon(last.ProtoReflect(), false), enum.Canon(want, false)), c, len(prefix))
+					}
+				}
+			}
+			if len(prefix) < 3 {
+				for i := range regs {
+					hist(append(append([]int(nil), prefix...), i))
+				}
+			}
+		}
+		hist(nil)
+	}
 	// (4) the source may be, or embed, the destination (its Value having spare capacity)
 	for _, spare := range []int{0, 1, 64} {
 		for _, on := range []string{"default", "Deterministic"} {
@@ -300,7 +371,7 @@ func runC16(h *hz.H) {
 			}
 		}
 	}
-	h.Rep.Rule = "(1) every <=1-slot value (reduced alphabet, nesting 1) of every pulsar type, 7 well-known/standard types and a descriptor-only type x {default, Deterministic, AllowPartial}: pack, type URL, value bytes, unpack through both paths, agreement; (2) the full product type URLs x value bytes x type resolvers x file resolvers: message xor error, no panic; (3) failed packs leave the destination untouched; (4) the destination itself as the source, with and without spare capacity in its Value; non-trivial = non-empty encoding (1), all (2)(3); distinct = hash of the case"
+	h.Rep.Rule = "(1) every <=1-slot value (reduced alphabet, nesting 1) of every pulsar type, 7 well-known/standard types and a descriptor-only type x {default, Deterministic, AllowPartial}: pack, type URL, value bytes, unpack through both paths, agreement; (2) the full product type URLs x value bytes x type resolvers x file resolvers: message xor error, no panic; (3) failed packs leave the destination untouched; (4) the destination itself as the source, with and without spare capacity in its Value; (5) every history of <=3 Unpack calls over three file registries that declare the same full name with different schemas; non-trivial = non-empty encoding (1), all (2)(3); distinct = hash of the case"
 	h.Rep.Assumptions = []string{"proto.Equal is replaced by canonical-form equality (bit-exact floats)", "registered types = protoregistry.GlobalTypes of this binary (checked-in packages, freshly generated mx, well-known types)"}
 }
 
